@@ -19,12 +19,13 @@ func init() {
 			"maps/slices/arrays, ints, float32, complex, funcs, chans, []byte, error, map[interface{}]interface{}, []map[string]interface{}, named string/float/map/slice types); also the "+
 			"opaque value as the root; judged against SPEC run unchanged on the same document (it only recognises the two JSON container types, compares literals by JSON type and paths by "+
 			"deep equality, names types via reflect): identical values (identity-aware for funcs, chans, pointers), errors from the candidate set incl. the Go type name in "+
-			"ErrorTypeUnmatched, no panic; non-trivial = the document holds at least one opaque leaf and the path has a filter or >= 2 steps; distinct = distinct (path, document)", len(gen.OpaqueKinds)),
+			"ErrorTypeUnmatched, no panic; a dedicated part puts separately created, deep-equal values of ONE opaque kind into every operand position of every systematic comparison, so that path == path meets two values of the same dynamic type (statically comparable types with uncomparable content, distinct pointers to equal data); non-trivial = the document holds at least one opaque leaf and the path has a filter or >= 2 steps; distinct = distinct (path, document)", len(gen.OpaqueKinds)),
 		Assumptions: []string{"user functions of the standard set treat unknown values as errors (twice, sum) or pass them through (ident, wrap, echo, first, count)"},
 		Plan: func(tier string, seed int64) *harness.Plan {
 			sys := newSysCases("quick")
+			nPair := len(gen.OpaqueKinds) * len(sys.filters)
 			return &harness.Plan{
-				N:     sys.n() + len(gen.OpaqueKinds)*40 + size(tier, 150000, 12000000),
+				N:     sys.n() + len(gen.OpaqueKinds)*40 + nPair + size(tier, 150000, 12000000),
 				Setup: func(c *harness.Ctx) { hooksOn() },
 				Run: func(c *harness.Ctx, k int) {
 					r := c.Rand()
@@ -45,6 +46,25 @@ func init() {
 						c.Cover("kind:" + gen.OpaqueKinds[i%len(gen.OpaqueKinds)])
 						runC20(c, d, doc, true)
 						return
+					case k < sys.n()+len(gen.OpaqueKinds)*40+nPair:
+						// every comparison / logical shape on a document whose operand positions ($.x, $.y[0], @.a, @[0], @)
+						// all hold values of ONE opaque kind - separately created but equal ones, and one of another kind -
+						// so that path == path meets two opaque values of the same dynamic type
+						i := k - sys.n() - len(gen.OpaqueKinds)*40
+						kind := i % len(gen.OpaqueKinds)
+						d = &diffCase{P: sys.filters[i/len(gen.OpaqueKinds)]}
+						d.Text, d.Texts = d.P.Render(spec.Canon)
+						doc = map[string]interface{}{
+							"x": gen.Opaque(kind), "y": []interface{}{gen.Opaque(kind)},
+							"m1": map[string]interface{}{"a": gen.Opaque(kind), "b": 1.0},
+							"m2": map[string]interface{}{"a": gen.Opaque(kind + 1)},
+							"m3": []interface{}{gen.Opaque(kind)},
+							"m4": gen.Opaque(kind),
+							"m5": map[string]interface{}{"b": gen.Opaque(kind)},
+						}
+						c.Cover("pair-kind:" + gen.OpaqueKinds[kind])
+						runC20(c, d, doc, true)
+						return
 					default:
 						g := gen.New(r)
 						d = randomCase(r, g, false)
@@ -59,7 +79,7 @@ func init() {
 				},
 				Finish: reportHooks,
 				Required: func() []string {
-					out := []string{"outcome:values", "outcome:type-unmatched-opaque", "outcome:error"}
+					out := []string{"outcome:values", "outcome:type-unmatched-opaque", "outcome:error", "pair-kind:fresh-ptr-struct", "pair-kind:struct-iface-slice"}
 					for _, k := range gen.OpaqueKinds {
 						out = append(out, "kind:"+k)
 					}
